@@ -42,7 +42,7 @@ PROPS = {
         'assumptions': ['World.Valid inputs'],
     },
     'C15': {
-        'lean': ['Netpol.Properties.C15', 'Netpol.Tie.C15'],
+        'lean': ['Netpol.Properties.C15', 'Netpol.Tie.C15', 'Netpol.Tie.Procs'],
         'families': [('hist', 600, 40000)],
         'shard_min': 100,
         'rule': 'histories of 5-60 InsertObject/DeleteObject/ClearResources/CheckIfAllowed operations over a vocabulary of 3 namespaces, 5 pods '
@@ -96,7 +96,7 @@ PROPS = {
         'assumptions': [],
     },
     'C19': {
-        'lean': ['Netpol.Properties.C19'],
+        'lean': ['Netpol.Properties.C19', 'Netpol.Tie.Procs'],
         'families': [('conflict', 1200, 40000), ('list', 500, 10000)],
         'rule': 'valid worlds padded with 0..40 admin policies, one injected conflict (same priority, priority out of range, duplicate ANP / NetworkPolicy name, '
                 'second BANP, BANP not named default, pods of one owner with different labels) at a random position, documents shuffled; list and diff (both argument '
